@@ -233,6 +233,53 @@ def run(rep, tier, seed):
                     fails.append('front end decompress raised %s' % o2[1])
                 b.add('front-decompress', ' '.join(toks), o2, parse_model_bits, fails, dict(layer='schc', op='schc-decompress', schc=s, contexts=[dict(stack=stacks[k], rules=nctxs[k]) for k in range(nctx)]), key=' '.join(toks))
     b.run()
+    shared_rulesets(rep, rng_for(seed, 'C15-shared'), tier)
+
+
+def shared_rulesets(rep, rnd, tier):
+    """contexts of one interface that share ONE rule set (the same list object, or an equal one) under DIFFERENT parser configurations: a
+    packet that the first stack parses into fields no rule matches and the second stack parses into the fields the rules were written
+    for must be compressed by the second context -- the front end tries every context, whatever the earlier ones were made of"""
+    import packets as P
+    SCHC = load_front()
+    n = 40 if tier == 'quick' else 400
+    for i in range(n):
+        v6 = i % 2 == 0
+        pair = ('IPv6-UDP-CoAP', 'IPv6') if v6 else ('IPv4-UDP-CoAP', 'IPv4')
+        if i % 4 == 3:
+            pkt = (P.pkt_ipv6_udp_raw if v6 else P.pkt_ipv4_udp_raw)(rnd)[0]
+        else:
+            # a CoAP-looking message sent to a port that designates nothing: the explicit stack parses it down to the options, the
+            # predictive one stops after UDP
+            src, dst = (rnd.randbytes(16), rnd.randbytes(16)) if v6 else (rnd.randbytes(4), rnd.randbytes(4))
+            u_ = P.udp(rnd, P.coap(rnd)[0], csum=(lambda x: P.udp_checksum_v6(src, dst, x)) if v6 else (lambda x: P.udp_checksum_v4(src, dst, x)), dport=rnd.choice([53, 5684, 9899, 40000]))
+            pkt = P.ipv6(rnd, u_, 17, src, dst) if v6 else P.ipv4(rnd, u_, 17, src, dst)
+        o1 = with_timeout(lambda: parser_for(pair[0]).parse(Buffer(pkt, len(pkt) * 8)))
+        o2 = with_timeout(lambda: parser_for(pair[1]).parse(Buffer(pkt, len(pkt) * 8)))
+        if o2[0] != 'OK':
+            continue
+        pd2 = o2[1]
+        pd2.direction = DI.UP
+        rules = [gen_rule(rnd, pd2, '0' + randbits(rnd, 3), kinds=('ns', 'vs', 'lsb', 'map')), gen_rule(rnd, pd2, '1' + randbits(rnd, 2), kinds=('vs', 'vsv'))]
+        nrs = [n_rule(r) for r in rules]
+        first_applies = False
+        if o1[0] == 'OK':
+            o1[1].direction = DI.UP
+            first_applies = any(ref_rule_applies(dict(n_pdesc(o1[1]), dir='U'), nr) for nr in nrs)
+        share = rnd.choice(['same-list', 'equal-list', 'reloaded'])
+        rules_b = rules if share == 'same-list' else (list(rules) if share == 'equal-list' else Context.from_json(Context(id='x', description='', interface_id='if0', parser_id=pair[1], ruleset=rules).json()).ruleset)
+        front = SCHC([Context(id='a', description='', interface_id='if0', parser_id=pair[0], ruleset=rules), Context(id='b', description='', interface_id='if0', parser_id=pair[1], ruleset=rules_b)])
+        out = obs_bits(with_timeout(lambda: front.compress(Buffer(pkt, len(pkt) * 8), 'if0')))
+        rep.count('front-shared-ruleset:%s' % share, key=('fsr', i))
+        rep.oracle_evals += 1
+        rep.hist['front-shared-ruleset:first-context-%s' % ('applies' if first_applies else ('parses-but-no-rule' if o1[0] == 'OK' else 'rejects'))] = rep.hist.get('front-shared-ruleset:first-context-%s' % ('applies' if first_applies else ('parses-but-no-rule' if o1[0] == 'OK' else 'rejects')), 0) + 1
+        if first_applies:
+            continue
+        want = ref_compress(dict(n_pdesc(pd2), dir='U'), nrs[0], 'U')
+        if want is not None and out != ('OK', want):
+            rep.violation('property', 'two contexts share one rule set (%s) under the stacks %s and %s: the first parses the packet but no rule matches, the second matches; the front end gave %s, expected %s'
+                          % (share, pair[0], pair[1], str(out)[:80], want[:80]), dict(layer='schc', op='front-shared-ruleset', packet=pkt.hex(), stacks=pair, rules=nrs, share=share))
+            return
 
 
 def replay(case):
